@@ -74,6 +74,13 @@ package rlwe
 //@   fresh buff
 //@   rebound sk=sk
 
+// deep copy of an evaluation key: the gadget ciphertext is copied and a compressed key keeps (a copy
+// of) its seed (finding F36: the seed was dropped, the copy of a compressed key could not be written)
+//@ copy EvaluationKey.CopyNew
+//@   property C10
+//@   copied GadgetCiphertext
+//@   derived Seed uses Seed
+
 //@ copy RingPackingEvaluator.ShallowCopy
 //@   shared RingPackingEvaluationKey XPow2NTT XInvPow2NTT
 //@   fresh Evaluators
